@@ -1,26 +1,31 @@
 reg("C14", "non-conditional simulations follow their model; basic generators have the moments of their laws",
     parts=[dict(harness="c14_simstat", cases=dict(quick=64, thorough=128), timeout_case=3600)],
-    rule="STATISTICAL NON-REFUTATION, false-alarm probability < 1e-9 per run. Cases are stratified on the case index (16 slots): "
+    rule="STATISTICAL NON-REFUTATION, false-alarm probability < 1e-9 per run. Cases are stratified on the case index only (16 slots "
+         "per block of 16 cases, class of the slot chosen by the block index, so every run of either tier visits every class): "
          "5 turning bands on a 16x16 (thorough 20x20) grid [1-2 nested structures of {spherical, exponential, gaussian, cubic, "
          "matern, stable, sincard, besselj} + optional nugget, anisotropy ratio ~0.25-0.3 rotated along a grid direction "
          "(1,0),(0,1),(1,+-1),(2,+-1),(1,+-2), sill in [0.03,0.2] or [8,50], non-zero mean, 1-2 variables with cross-correlation "
          "+-0.7..0.95 of opposite signs in nested structures, nbtuba 100/200], 2 turning bands on scattered points (1-D, 2-D, 3-D), "
-         "2 simfft (isotropic short range on a square grid; anisotropic; non-square grid), 1 simuSpectral (unit sill / sill != 1), "
-         "1 Cholesky (MatrixSquareSymmetricSim dense inverse=false/true, sparse; CholeskyDense/CholeskySparse::evalSimulate with "
-         "VH::simulateGaussian white noise), 1 simulateSPDE (Matern nu=1 on a 12x12 grid), 4 basic laws (uniform, gaussian, "
-         "exponential, gamma, poisson, beta1, beta2, binomial, int_uniform, gaussian_between_bounds). R realisations (turning bands "
-         "1200 / thorough 6000, FFT 800/4000, spectral 1200/6000, Cholesky 1500/8000, SPDE 400/2000), seeds of the batches drawn "
-         "from the case PRNG. Statistics: ensemble mean per variable; variance; (cross-)covariances averaged over all grid pairs at "
-         "lags 1x and 2x the major-axis vector, 1x and 2x the perpendicular vector, one other lag (points: pairs grouped by model "
-         "correlation class). bound = z*SD*(kappa + z/sqrt(2R)) + allowance*sqrt(Cii(0)Cjj(0)); SD from the MODEL (Isserlis double sum "
-         "over the pairs), z = 8.2 = sqrt(2 ln(2*2e5/1e-9)) (Bonferroni over up to 2e5 statistics), kappa = 1 for variances (PSD "
-         "quadratic form) and sqrt(2) otherwise, z/sqrt(2R) = exact sub-exponential tail correction (Laurent-Massart). "
-         "method_allowance (fraction of the sill, calibrated on the unchanged tree): turning bands 0.03, FFT 0.08 (range <= 0.17 grid "
-         "size, square grid, isotropic), spectral 0.03, Cholesky 0, SPDE 0.08; on means 0.01/0.01/0.01/0/0.02 of the standard "
-         "deviation. Covariance statistics are skipped (counted) when a mean statistic of the same case fails. Laws: N = 2e5 "
-         "(thorough 2e6) draws, raw moments 1-4 with bound z*sqrt((mu_2k-mu_k^2)/N) + 2 q^k x/(3N) (Bernstein, q = 1e-20 quantile) "
-         "+ 1e-3*sqrt(mu_2k) (generator allowance, calibrated), "
-         "support, and reach of the range (an extreme quantile that a sample of the law passes with probability 1-1e-12). "
+         "2 simfft (reference: isotropic short range on a square grid; alternately anisotropic model / non-square grid), "
+         "1 simuSpectral (block mod 4: gaussian unit sill; matern nu 1.5/2.5 unit sill; sill far from 1; reference exponential / "
+         "matern 0.5 unit sill), 1 Cholesky (MatrixSquareSymmetricSim dense inverse=false/true, sparse; CholeskyDense / "
+         "CholeskySparse::evalSimulate with VH::simulateGaussian white noise), 1 simulateSPDE (Matern nu=1, 12x12 grid), 4 basic "
+         "laws (12 laws in turn: uniform, gaussian, exponential, gamma beta=1 / beta!=1, poisson <16 / >=16, beta1, beta2, binomial, "
+         "int_uniform, gaussian_between_bounds). R realisations (turning bands 1200 / thorough 6000, FFT 800/4000, spectral "
+         "2000/6000, Cholesky 1500/8000, SPDE 400/2000), seeds of the batches drawn from the case PRNG. simfft (reference), "
+         "simuSpectral (reference) and simulateSPDE are run with a zero model mean, plus 200 (SPDE 100) realisations with a mean "
+         "3-30 st. dev. away from 0 on which only the ensemble mean is tested. Statistics: ensemble mean per variable; variance; "
+         "(cross-)covariances averaged over all grid pairs at lags 1x and 2x the major-axis vector, 1x and 2x the perpendicular "
+         "vector, one other lag (points: pairs grouped by model correlation class). bound = z*SD*(kappa + z/sqrt(2R)) + "
+         "allowance*sqrt(Cii(0)Cjj(0)); SD from the MODEL (Isserlis double sum over the pairs), z = 8.2 = sqrt(2 ln(2*2e5/1e-9)) "
+         "(Bonferroni over up to 2e5 statistics), kappa = 1 for variances (PSD quadratic form) and sqrt(2) otherwise, z/sqrt(2R) = "
+         "exact sub-exponential tail correction (Laurent-Massart). method_allowance (fraction of the sill, calibrated on the "
+         "unchanged tree): turning bands 0.03, FFT 0.08 (range <= 0.17 grid size, square grid, isotropic), spectral 0.03, Cholesky 0, "
+         "SPDE 0.08; on means 0.01/0.01/0.01/0/0.02 of the standard deviation. Laws: N = 2e5 (thorough 2e6; poisson >= 16: 1e6/2e6) "
+         "draws; the mean and the central moments 2-4 about the mean of the law, bound z*sqrt((cm_2k-cm_k^2)/N) + 2 Q^k x/(3N) "
+         "(Bernstein, Q = 1e-20 quantile) + 2e-3*sqrt(cm_2k) (generator allowance, calibrated); support; reach of the range (an "
+         "extreme quantile that a sample of the law passes with probability 1-1e-12). Violation keys are per root cause for the "
+         "input classes of the open findings (one key whatever the statistic) and per statistic class elsewhere. "
          "distinct = distinct (simulator, support, variables, structure, anisotropy, direction, sill class, ...) signatures",
     level="exploration",
     require=dict(distinct=30,
